@@ -22,7 +22,7 @@
 #endif
 
 #define QM_ASSERT(c, msg) vf_assert((c), "qtmodel precondition: " msg)
-#define QM_LIMIT(c) do { if (!(c)) { vf_assume(false); } } while (0)
+#define QM_LIMIT(c) vf_assume(c)   /* no branch: keeps CBMC's path guards small */
 #define QM_COPYABLE(T) \
     T(const T &o) { __builtin_memcpy((void *)this, (const void *)&o, sizeof(T)); } \
     T &operator=(const T &o) { __builtin_memcpy((void *)this, (const void *)&o, sizeof(T)); return *this; }
@@ -203,29 +203,26 @@ public:
 
 inline int qm_strlen(const char *s)
 {
-    // bounded strlen: all C strings that enter the model fit the string capacity (+ slack for literals)
-    int n = 0;
-    for (int i = 0; i < 4 * QM_STR_CAP + 64; ++i) { if (s[i] == 0) break; ++n; }
-    QM_LIMIT(s[n] == 0);
+    // bounded strlen without early exit: every C string that enters the model fits the string capacity
+    int n = 0; bool open = true;
+    for (int i = 0; i < QM_STR_CAP + 1; ++i) if (open) { if (s[i] == 0) open = false; else ++n; }
+    QM_LIMIT(!open);
     return n;
 }
 inline uint qstrlen(const char *s) { return s ? uint(qm_strlen(s)) : 0u; }
 inline int qstrcmp(const char *a, const char *b)
 {
     if (!a || !b) return a ? 1 : (b ? -1 : 0);
-    for (int i = 0; i < 4 * QM_STR_CAP + 64; ++i) {
+    int r = 0; bool open = true;
+    for (int i = 0; i < QM_STR_CAP + 1; ++i) if (open) {
         uchar x = uchar(a[i]), y = uchar(b[i]);
-        if (x != y) return x < y ? -1 : 1;
-        if (x == 0) return 0;
+        if (x != y) { r = x < y ? -1 : 1; open = false; }
+        else if (x == 0) open = false;
     }
-    QM_LIMIT(false);
-    return 0;
+    QM_LIMIT(!open);
+    return r;
 }
-#ifndef QM_NO_LIBC_STRLEN
-// the repo calls plain strlen() on context strings (sentryformatter.cpp)
-extern "C" inline __attribute__((always_inline)) size_t qm_c_strlen(const char *s) { return size_t(qm_strlen(s)); }
-#define strlen(s) qm_c_strlen(s)
-#endif
+
 
 // ---------------------------------------------------------------- QByteArray
 class QString;
@@ -285,15 +282,17 @@ public:
     {
         int n = qm_strlen(s);
         if (n > m_len) return false;
-        for (int i = 0; i < QM_STR_CAP; ++i) if (i < n && m_d[i] != s[i]) return false;
-        return true;
+        bool qm_r = true;
+        for (int i = 0; i < QM_STR_CAP; ++i) if (i < n && m_d[i] != s[i]) qm_r = false;
+        return qm_r;
     }
     bool endsWith(const char *s) const
     {
         int n = qm_strlen(s);
         if (n > m_len) return false;
-        for (int i = 0; i < QM_STR_CAP; ++i) if (i < n && m_d[m_len - n + i] != s[i]) return false;
-        return true;
+        bool qm_r = true;
+        for (int i = 0; i < QM_STR_CAP; ++i) if (i < n && m_d[m_len - n + i] != s[i]) qm_r = false;
+        return qm_r;
     }
     bool startsWith(const QByteArray &o) const { return startsWith(o.m_d); }
     void truncate(int pos) { if (pos < m_len) setlen(pos < 0 ? 0 : pos); }
@@ -302,8 +301,9 @@ public:
     bool matchAt(int i, const char *s, int n) const
     {
         if (i < 0 || i + n > m_len) return false;
-        for (int j = 0; j < QM_STR_CAP; ++j) if (j < n && m_d[i + j] != s[j]) return false;
-        return true;
+        bool qm_r = true;
+        for (int j = 0; j < QM_STR_CAP; ++j) if (j < n && m_d[i + j] != s[j]) qm_r = false;
+        return qm_r;
     }
     int indexOf(const char *s, int from = 0) const
     {
@@ -311,22 +311,25 @@ public:
         if (from < 0) from += m_len;
         if (from < 0) from = 0;
         if (n == 0) return from <= m_len ? from : -1;
-        for (int i = 0; i < QM_STR_CAP; ++i) if (i >= from && matchAt(i, s, n)) return i;
-        return -1;
+        int qm_r = -1;
+        for (int i = 0; i < QM_STR_CAP; ++i) if (qm_r < 0 && i >= from && matchAt(i, s, n)) qm_r = i;
+        return qm_r;
     }
     int indexOf(char c, int from = 0) const
     {
         if (from < 0) from += m_len;
         if (from < 0) from = 0;
-        for (int i = 0; i < QM_STR_CAP; ++i) if (i >= from && i < m_len && m_d[i] == c) return i;
-        return -1;
+        int qm_r = -1;
+        for (int i = 0; i < QM_STR_CAP; ++i) if (qm_r < 0 && i >= from && i < m_len && m_d[i] == c) qm_r = i;
+        return qm_r;
     }
     int lastIndexOf(char c, int from = -1) const
     {
         if (from < 0) from += m_len;
         else if (from > m_len) from = m_len - 1;
-        for (int i = QM_STR_CAP - 1; i >= 0; --i) if (i <= from && i < m_len && m_d[i] == c) return i;
-        return -1;
+        int qm_r = -1;
+        for (int i = QM_STR_CAP - 1; i >= 0; --i) if (qm_r < 0 && i <= from && i < m_len && m_d[i] == c) qm_r = i;
+        return qm_r;
     }
     int lastIndexOf(const char *s, int from = -1) const
     {
@@ -336,8 +339,9 @@ public:
         if (from < 0) from = delta;
         if (from < 0 || from > m_len) return -1;
         if (from > delta) from = delta;
-        for (int i = QM_STR_CAP; i >= 0; --i) if (i <= from && matchAt(i, s, n)) return i;
-        return -1;
+        int qm_r = -1;
+        for (int i = QM_STR_CAP; i >= 0; --i) if (qm_r < 0 && i <= from && matchAt(i, s, n)) qm_r = i;
+        return qm_r;
     }
     bool contains(char c) const { return indexOf(c) != -1; }
     bool contains(const char *s) const { return indexOf(s) != -1; }
@@ -372,8 +376,7 @@ public:
         int bn = qm_strlen(before), an = qm_strlen(after);
         if (bn == 0) { QM_LIMIT(false); return *this; }
         QByteArray r; r.m_null = m_null; int i = 0;
-        for (int step = 0; step < QM_STR_CAP; ++step) {
-            if (i >= m_len) break;
+        for (int step = 0; step < QM_STR_CAP; ++step) if (i < m_len) {
             if (matchAt(i, before, bn)) {
                 for (int j = 0; j < 16; ++j) if (j < an) { QM_LIMIT(r.m_len < QM_STR_CAP); r.m_d[r.m_len++] = after[j]; }
                 i += bn;
@@ -403,8 +406,9 @@ public:
     bool eq(const char *s, int n) const
     {
         if (n != m_len) return false;
-        for (int i = 0; i < QM_STR_CAP; ++i) if (i < n && m_d[i] != s[i]) return false;
-        return true;
+        bool qm_r = true;
+        for (int i = 0; i < QM_STR_CAP; ++i) if (i < n && m_d[i] != s[i]) qm_r = false;
+        return qm_r;
     }
     QByteArray trimmed() const;
     inline QString toStdStringDummy() const;
@@ -559,33 +563,34 @@ public:
     QString &operator=(const char *s) { *this = fromUtf8(s); return *this; }
     void push_back(QChar c) { append(c); }
 
-    bool eq(const QString &o) const
+    // straight-line comparison (fold expression with non-short-circuit operators): no loop, no branches for the solver
+    template<size_t... I> bool eqImpl(const QString &o, std::index_sequence<I...>) const
     {
-        if (m_len != o.m_len) return false;
-        for (int i = 0; i < QM_STR_CAP; ++i) if (i < m_len && m_d[i] != o.m_d[i]) return false;
-        return true;
+        return bool((m_len == o.m_len) & !(... | ((int(I) < m_len) & (m_d[I] != o.m_d[I]))));
     }
+    bool eq(const QString &o) const { return eqImpl(o, std::make_index_sequence<QM_STR_CAP>()); }
     bool eqL1(const char *s, int n) const
     {
         if (m_len != n) return false;
-        for (int i = 0; i < QM_STR_CAP; ++i) if (i < n && m_d[i] != ushort(uchar(s[i]))) return false;
-        return true;
+        bool qm_r = true;
+        for (int i = 0; i < QM_STR_CAP; ++i) if (i < n && m_d[i] != ushort(uchar(s[i]))) qm_r = false;
+        return qm_r;
     }
     int cmp(const QString &o) const
     {
-        for (int i = 0; i < QM_STR_CAP; ++i) {
-            if (i >= m_len || i >= o.m_len) break;
-            if (m_d[i] != o.m_d[i]) return m_d[i] < o.m_d[i] ? -1 : 1;
-        }
-        return m_len == o.m_len ? 0 : (m_len < o.m_len ? -1 : 1);
+        int r = 0;
+        for (int i = 0; i < QM_STR_CAP; ++i) if (r == 0 && i < m_len && i < o.m_len && m_d[i] != o.m_d[i]) r = m_d[i] < o.m_d[i] ? -1 : 1;
+        if (r == 0) r = m_len == o.m_len ? 0 : (m_len < o.m_len ? -1 : 1);
+        return r;
     }
     int compare(const QString &o) const { return cmp(o); }
 
     bool matchAt(int i, const QString &s) const
     {
         if (i < 0 || i + s.m_len > m_len) return false;
-        for (int j = 0; j < QM_STR_CAP; ++j) if (j < s.m_len && m_d[i + j] != s.m_d[j]) return false;
-        return true;
+        bool qm_r = true;
+        for (int j = 0; j < QM_STR_CAP; ++j) if (j < s.m_len && m_d[i + j] != s.m_d[j]) qm_r = false;
+        return qm_r;
     }
     bool startsWith(const QString &s) const { if (m_null) return s.m_null; return matchAt(0, s); }   // Qt: a null haystack only starts with a null needle
     bool startsWith(QLatin1String s) const { return matchAt(0, QString(s)); }
@@ -598,8 +603,9 @@ public:
     int indexOf(QChar c, int from = 0) const
     {
         if (from < 0) from = from + m_len < 0 ? 0 : from + m_len;
-        for (int i = 0; i < QM_STR_CAP; ++i) if (i >= from && i < m_len && m_d[i] == c.ucs) return i;
-        return -1;
+        int qm_r = -1;
+        for (int i = 0; i < QM_STR_CAP; ++i) if (qm_r < 0 && i >= from && i < m_len && m_d[i] == c.ucs) qm_r = i;
+        return qm_r;
     }
     int indexOf(QLatin1Char c, int from = 0) const { return indexOf(QChar(c), from); }
     int indexOf(char c, int from = 0) const { return indexOf(QChar(c), from); }
@@ -608,8 +614,9 @@ public:
         if (from < 0) from += m_len;
         if (from < 0 || s.m_len + from > m_len) return -1;     // Qt: a start before the beginning is NOT clamped for string needles
         if (s.m_len == 0) return from;
-        for (int i = 0; i < QM_STR_CAP; ++i) if (i >= from && matchAt(i, s)) return i;
-        return -1;
+        int qm_r = -1;
+        for (int i = 0; i < QM_STR_CAP; ++i) if (qm_r < 0 && i >= from && matchAt(i, s)) qm_r = i;
+        return qm_r;
     }
     int indexOf(QLatin1String s, int from = 0) const { return indexOf(QString(s), from); }
     int indexOf(const char *s, int from = 0) const { return indexOf(QString(s), from); }
@@ -617,8 +624,9 @@ public:
     {
         if (from < 0) from += m_len;
         if (uint(from) >= uint(m_len)) return -1;
-        for (int i = QM_STR_CAP - 1; i >= 0; --i) if (i <= from && m_d[i] == c.ucs) return i;
-        return -1;
+        int qm_r = -1;
+        for (int i = QM_STR_CAP - 1; i >= 0; --i) if (qm_r < 0 && i <= from && m_d[i] == c.ucs) qm_r = i;
+        return qm_r;
     }
     int lastIndexOf(QLatin1Char c, int from = -1) const { return lastIndexOf(QChar(c), from); }
     int lastIndexOf(const QString &s, int from = -1) const
@@ -628,8 +636,9 @@ public:
         if (from == l && sl == 0) return from;
         if (uint(from) >= uint(l) || delta < 0) return -1;
         if (from > delta) from = delta;
-        for (int i = QM_STR_CAP - 1; i >= 0; --i) if (i <= from && matchAt(i, s)) return i;
-        return -1;
+        int qm_r = -1;
+        for (int i = QM_STR_CAP - 1; i >= 0; --i) if (qm_r < 0 && i <= from && matchAt(i, s)) qm_r = i;
+        return qm_r;
     }
     bool contains(QChar c) const { return indexOf(c) != -1; }
     bool contains(QLatin1Char c) const { return indexOf(QChar(c)) != -1; }
@@ -667,8 +676,7 @@ public:
         QM_LIMIT(before.m_len > 0);   // model: empty 'before' (insert between every char) not modelled
         bool any = false;
         QString r; r.m_null = false; int i = 0;
-        for (int step = 0; step < QM_STR_CAP; ++step) {
-            if (i >= m_len) break;
+        for (int step = 0; step < QM_STR_CAP; ++step) if (i < m_len) {
             if (matchAt(i, before)) {
                 QM_LIMIT(r.m_len + after.m_len <= QM_STR_CAP);
                 for (int j = 0; j < QM_STR_CAP; ++j) if (j < after.m_len) r.m_d[r.m_len + j] = after.m_d[j];
@@ -712,12 +720,13 @@ public:
         if (t.m_len > 0 && (t.m_d[0] == '-' || t.m_d[0] == '+')) { neg = t.m_d[0] == '-'; i = 1; }
         if (i >= t.m_len) return 0;
         QM_LIMIT(t.m_len - i <= 15);   // model: more than 15 digits not modelled (would need 128-bit accumulation)
-        qlonglong v = 0;
+        qlonglong v = 0; bool bad = false;
         for (int k = 0; k < QM_STR_CAP; ++k) if (k >= i && k < t.m_len) {
             ushort c = t.m_d[k];
-            if (c < '0' || c > '9') return 0;
-            v = v * 10 + (c - '0');
+            if (c < '0' || c > '9') bad = true;
+            else v = v * 10 + (c - '0');
         }
+        if (bad) return 0;
         if (neg) v = -v;
         if (v < lo || v > hi) return 0;
         if (ok) *ok = true;
@@ -798,8 +807,7 @@ public:
         for (int k = 0; k < 4; ++k) { nums[k] = -1; if (k < nargs) { nums[k] = lowestMarker(*this, prev); if (nums[k] >= 0) prev = nums[k]; else prev = 1000; } }
         if (nums[0] < 0) return *this;      // no place marker: Qt warns and returns the string unchanged
         QString r; r.m_null = false; int i = 0;
-        for (int step = 0; step < QM_STR_CAP; ++step) {
-            if (i >= m_len) break;
+        for (int step = 0; step < QM_STR_CAP; ++step) if (i < m_len) {
             int l = 0; int m = markerAt(*this, i, &l); int which = -1;
             if (m >= 0) for (int k = 0; k < 4; ++k) if (k < nargs && nums[k] == m) which = k;
             if (which >= 0) {
@@ -1026,9 +1034,9 @@ public:
         return removed;
     }
     bool removeOne(const T &v) { int i = indexOf(v); if (i < 0) return false; removeAt(i); return true; }
-    int indexOf(const T &v, int from = 0) const { for (int i = 0; i < CAP; ++i) if (i >= from && i < m_n && m_a[i] == v) return i; return -1; }
+    int indexOf(const T &v, int from = 0) const { int r = -1; for (int i = 0; i < CAP; ++i) if (r < 0 && i >= from && i < m_n && m_a[i] == v) r = i; return r; }
     bool contains(const T &v) const { return indexOf(v) >= 0; }
-    bool operator==(const QList &o) const { if (m_n != o.m_n) return false; for (int i = 0; i < CAP; ++i) if (i < m_n && !(m_a[i] == o.m_a[i])) return false; return true; }
+    bool operator==(const QList &o) const { bool r = m_n == o.m_n; for (int i = 0; i < CAP; ++i) if (i < m_n && i < o.m_n && !(m_a[i] == o.m_a[i])) r = false; return r; }
 };
 
 template<typename T> class QMutableListIterator
@@ -1051,6 +1059,13 @@ public:
     QStringList(std::initializer_list<QString> l) : QList<QString>(l) { }
     QString join(const QString &sep) const { QString r; r.m_null = false; for (int i = 0; i < QM_LIST_CAP; ++i) if (i < m_n) { if (i) r += sep; r += m_a[i]; } return r; }
     QString join(QChar sep) const { return join(QString(sep)); }
+    using QList<QString>::contains;
+    bool contains(const QString &s, Qt::CaseSensitivity cs) const
+    {
+        bool r = false;
+        for (int i = 0; i < QM_LIST_CAP; ++i) if (i < m_n && (cs == Qt::CaseSensitive ? m_a[i] == s : m_a[i].toLower() == s.toLower())) r = true;
+        return r;
+    }
 };
 
 inline QStringList QString::split(QChar sep, Qt::SplitBehaviorFlags b) const
@@ -1157,9 +1172,9 @@ public:
     QList<K> keys() const { QList<K> l; for (int i = 0; i < CAP; ++i) if (i < m_n) l.append(m_k[i]); return l; }
     bool operator==(const QHash &o) const
     {
-        if (m_n != o.m_n) return false;
-        for (int i = 0; i < CAP; ++i) if (i < m_n) { int j = o.idx(m_k[i]); if (j < 0 || !(m_v[i] == o.m_v[j])) return false; }
-        return true;
+        bool r = m_n == o.m_n;
+        for (int i = 0; i < CAP; ++i) if (i < m_n) { V ov = o.value(m_k[i]); if (!o.contains(m_k[i]) || !(m_v[i] == ov)) r = false; }
+        return r;
     }
     bool operator!=(const QHash &o) const { return !(*this == o); }
 };
@@ -1172,7 +1187,7 @@ public:
     T m_a[CAP];
     QSet() : m_n(0) { }
     QSet(std::initializer_list<T> l) : m_n(0) { for (const T &v : l) insert(v); }
-    bool contains(const T &v) const { for (int i = 0; i < CAP; ++i) if (i < m_n && m_a[i] == v) return true; return false; }
+    bool contains(const T &v) const { bool r = false; for (int i = 0; i < CAP; ++i) if (i < m_n && m_a[i] == v) r = true; return r; }
     void insert(const T &v) { if (!contains(v)) { QM_LIMIT(m_n < CAP); m_a[m_n++] = v; } }
     int size() const { return m_n; }
     bool isEmpty() const { return m_n == 0; }
